@@ -1,0 +1,42 @@
+// Copyright 2017-2021 Lei Ni (nilei81@gmail.com) and other contributors.
+//
+// Licensed under the Apache License, Version 2.0 (the "License");
+// you may not use this file except in compliance with the License.
+// You may obtain a copy of the License at
+//
+//     http://www.apache.org/licenses/LICENSE-2.0
+//
+// Unless required by applicable law or agreed to in writing, software
+// distributed under the License is distributed on an "AS IS" BASIS,
+// WITHOUT WARRANTIES OR CONDITIONS OF ANY KIND, either express or implied.
+// See the License for the specific language governing permissions and
+// limitations under the License.
+
+//go:build verif
+
+package raft
+
+import (
+	"github.com/lni/dragonboat/v4/internal/server"
+)
+
+// This file only exists under the verif build tag (engine logview, C19).
+// Add-only and behaviour-free: a second constructor of the VerifLog wrapper
+// that enables the in memory log rate limiter, exactly as newRaft does when
+// config.MaxInMemLogSize is set, plus a reader of the tracked size.
+
+// NewVerifLogRateLimited creates an entryLog on top of the specified ILogDB
+// with an enabled in memory rate limiter of maxInMemLogSize bytes.
+func NewVerifLogRateLimited(logdb ILogDB, maxInMemLogSize uint64) *VerifLog {
+	return &VerifLog{l: newEntryLog(logdb, server.NewInMemRateLimiter(maxInMemLogSize))}
+}
+
+// InMemRateLimiterSize returns the size tracked by the in memory rate limiter
+// and whether it is enabled.
+func (v *VerifLog) InMemRateLimiterSize() (uint64, bool) {
+	rl := v.l.inmem.rl
+	if rl == nil || !rl.Enabled() {
+		return 0, false
+	}
+	return rl.Get(), true
+}
